@@ -13,8 +13,6 @@ enum MatchOp {
     NoMatch,
 }
 //@end
-pub assume_specification[ <usize as From<bool>>::from ](b: bool) -> (r: usize)
-    ensures r == (if b { 1usize } else { 0usize });
 pub assume_specification<T>[ <[T]>::reverse ](s: &mut [T])
     ensures final(s)@ == old(s)@.reverse();
 #[verifier::external_body]
